@@ -43,7 +43,19 @@ func verifC15_echo() {
 	}
 	t := vNewTransport(vEncodeFrames(in))
 	t.step = vParam("step", 0)
-	c := vNewConn(t, client, nil, 16, 256)
+	var copts *compressionOptions
+	midWrite := vParam("midWrite", 0) == 1
+	if midWrite {
+		copts = vCopts(1)
+	}
+	c := vNewConn(t, client, copts, 16, 256)
+	if midWrite {
+		// the application is in the middle of streaming a compressed message: its first fragment is out (this is the
+		// call msgWriter makes for it), the continuation is yet to come, when the peer's Pings arrive
+		_, werr := c.writeFrame(vBG, false, true, opText, vBytes("frag", 2))
+		vAssert(werr == nil, "C15.echo.setup")
+		vReach("C15.echo.mid-compressed-write")
+	}
 	if len(pings) > 0 {
 		vReach("C15.echo.pinged")
 	}
@@ -82,6 +94,11 @@ func verifC15_own() {
 	var payloads [][]byte
 	for i := 0; i < nPongs; i++ {
 		b := vBytes("pongp", 1+vChoose("pongLen", 2)) // one or two arbitrary bytes: "1", "01", "+1", ...
+		if vChoose("isPing", 2) == 1 {
+			// not a Pong at all: the peer's own Ping, possibly with the very payload we wait for (peers count from "1" too)
+			in = append(in, mk(vFrame{fin: true, opcode: 9, payload: b}))
+			continue
+		}
 		payloads = append(payloads, b)
 		in = append(in, mk(vFrame{fin: true, opcode: 10, payload: b}))
 	}
@@ -117,6 +134,9 @@ func verifC15_own() {
 	}
 	// the ping frame on the wire carries "1"
 	frames, ok := vParseWritten(t.out)
+	if !ok && !vIsOpen(c) {
+		ok = true // (the ping's timeout closes the connection: a Pong being written at that moment may be cut short)
+	}
 	vAssert(vAnd(ok, len(frames) >= 1), "C15.own.ping-written")
 	if ok && len(frames) >= 1 {
 		vAssert(vAnd(frames[0].opcode == 9, vEqBytes(frames[0].payload, []byte("1"))), "C15.own.ping-payload")
